@@ -199,6 +199,35 @@ def tokpos(repo):
         "L": lambda n: isinstance(n, ast.Call) and call_name(n) == "len" and len(n.args) == 1
         and isinstance(n.args[0], ast.Name) and n.args[0].id == best,
     }
+    # 0. subject: the text that is matched is the caller's line, unmodified, from the current offset
+    line_param = f.node.args.args[0].arg
+    res.instances += 2
+    rebinds = [n for n in walk_no_nested_funcs(f.node) if isinstance(n, (ast.Assign, ast.AugAssign))
+               and any(isinstance(x, ast.Name) and x.id == line_param and isinstance(x.ctx, ast.Store)
+                       for x in ast.walk(n.targets[0] if isinstance(n, ast.Assign) else n.target))]
+    if rebinds:
+        res.add(f"{TOK}|{f.name}|subject-rebound", f"{f.name} rebinds its line parameter (`{ast.unparse(rebinds[0])}`): tokens are matched "
+                "against altered text, so patterns that run to the end of the line (comments, documentation) stop early and token "
+                "text/end columns no longer equal the source", TOK, rebinds[0].lineno, f.name)
+    subjects = set()
+    for n in ast.walk(loop):
+        if isinstance(n, ast.Call) and isinstance(n.func, ast.Attribute) and n.func.attr in ("startswith", "match") :
+            subj = n.func.value if n.func.attr == "startswith" else (n.args[0] if n.args else None)
+            if subj is not None:
+                subjects.add(ast.unparse(subj))
+    if subjects != {f"{line_param}[{off}:]"}:
+        res.add(f"{TOK}|{f.name}|subject", f"patterns are matched against {sorted(subjects)}, not against `{line_param}[{off}:]`", TOK, loop.lineno, f.name)
+    # the caller hands the line over as it was cut from the source
+    for g in m.top_funcs():
+        for n in walk_no_nested_funcs(g.node):
+            if isinstance(n, ast.Call) and isinstance(n.func, ast.Name) and n.func.id == f.name and n.args:
+                res.instances += 1
+                a0 = n.args[0]
+                loops_ = [x for x in walk_no_nested_funcs(g.node) if isinstance(x, ast.For) and isinstance(x.target, ast.Name)
+                          and isinstance(a0, ast.Name) and x.target.id == a0.id]
+                if not loops_:
+                    res.add(f"{TOK}|{g.name}|line-argument", f"{g.name} passes `{ast.unparse(a0)}` to {f.name}, not the line as cut from the source",
+                            TOK, n.lineno, g.name)
     # 1. advance: exactly one unconditional `offset += len(best)` as a direct statement of the loop body
     adv = [s for s in loop.body if isinstance(s, ast.AugAssign) and isinstance(s.target, ast.Name) and s.target.id == off]
     alladv = [n for n in ast.walk(loop) if isinstance(n, (ast.AugAssign, ast.Assign)) and off in
